@@ -54,12 +54,11 @@ nextchar(struct scanner *s)
 
 	if (s->usebuf)
 		bufadd(&s->buf, s->chr);
+	/* loc is the position of the current character; a newline belongs to the line it ends */
+	if (s->chr == '\n')
+		++s->loc.line, s->loc.col = 0;
 	for (;;) {
 		s->chr = getc(s->file);
-		if (s->chr == '\n') {
-			++s->loc.line, s->loc.col = 0;
-			break;
-		}
 		++s->loc.col;
 		if (s->chr != '\\')
 			break;
@@ -425,6 +424,7 @@ scanfrom(const char *name, FILE *file)
 	s->buf.len = 0;
 	s->buf.cap = 0;
 	s->usebuf = false;
+	s->chr = 0;
 	s->loc.file = name;
 	s->loc.line = 1;
 	s->loc.col = 0;
@@ -448,6 +448,13 @@ scanopen(void)
 void
 scansetloc(struct location loc)
 {
+	/*
+	loc is the presumed location of the line following the directive
+	whose newline is the current token; the scanner may already have
+	read beyond the start of that line (blank lines, spliced lines).
+	*/
+	loc.line += scanner->loc.line - tok.loc.line - 1;
+	loc.col = scanner->loc.col;
 	scanner->loc = loc;
 }
 
